@@ -132,8 +132,10 @@ PROPS = {
         "k": [],
         "bounds": {"all": "Engine M over the real TimeZone::get_epoch_nanoseconds_for / disambiguate_possible_epoch_nanos / get_iso_datetime_for MIR with a synthetic zone chosen by the solver: "
                           "one transition at any second of 2000-06-15, offsets before/after any second count with |offset| < 24 h (gaps and overlaps up to 48 h), "
-                          "every local time of 2000-06-15 at nanosecond resolution / every instant of 2000-06-14..16, all four disambiguations"},
-        "outside": "offset option (InterpretISODateTimeOffset), offsets parsed from strings, fixed-offset zones, two-transition zones, real IANA data (C15); "
+                          "every local time of 2000-06-15 at nanosecond resolution / every instant of 2000-06-14..16, all four disambiguations; InterpretISODateTimeOffset for all four offset options x "
+                          "Z / explicit offset (any ns) / none (callers' contract match_minutes = true); offset extraction of zoned / relative-to strings over arbitrary offset records; "
+                          "fixed-offset zones: reading of every instant of 2000-06-14..16 under every +-hh:mm"},
+        "outside": "wall -> instant in fixed-offset zones (its vec! construction is raw-pointer code the encoder does not model), two-transition zones, real IANA data (C15); "
                    "Kani harnesses for the same functions exist (harness/src/c13.rs) but CBMC does not finish them within 15 min",
     },
     "C12": {
